@@ -426,8 +426,7 @@ class PythonTypesBackend(CodeBackend):
         # As an edge case, we union omitted callers with None in the case when the object has no
         # public fields, as we still need to generate public attributes (`_field_names_` etc)
         child_omitted_callers = data_type.get_all_omitted_callers() | {None}
-        parent_omitted_callers = data_type.parent_type.get_all_omitted_callers() if \
-            data_type.parent_type else set()
+        parent_omitted_callers = _ancestor_omitted_callers(data_type)
 
         for omitted_caller in sorted(child_omitted_callers | parent_omitted_callers, key=str):
             is_public = omitted_caller is None
@@ -868,8 +867,7 @@ class PythonTypesBackend(CodeBackend):
 
         # generate _all_fields_ for each omitted caller (and public)
         child_omitted_callers = data_type.get_all_omitted_callers()
-        parent_omitted_callers = data_type.parent_type.get_all_omitted_callers() if \
-            data_type.parent_type else set()
+        parent_omitted_callers = _ancestor_omitted_callers(data_type)
 
         all_omitted_callers = child_omitted_callers | parent_omitted_callers
         if len(all_omitted_callers) != 0:
@@ -1074,6 +1072,18 @@ class PythonTypesBackend(CodeBackend):
             self.emit("{}._redact = bv.HashRedactor({})".format(validator_name, regex))
         elif isinstance(redactor, RedactedBlot):
             self.emit("{}._redact = bv.BlotRedactor({})".format(validator_name, regex))
+
+def _ancestor_omitted_callers(data_type):
+    """
+    Omitted callers of every ancestor: the per-caller tables of a type extend
+    those of its parent, which in turn extend the grandparent's.
+    """
+    callers = set()
+    parent_type = data_type.parent_type
+    while parent_type:
+        callers |= parent_type.get_all_omitted_callers()
+        parent_type = parent_type.parent_type
+    return callers
 
 def generate_validator_constructor(ns, data_type):
     """
